@@ -101,6 +101,9 @@ func New(params NewParams) *SourceRunner {
 		initDone:            make(chan struct{}),
 		splitsWereAssigned:  make(chan []*workerpb.SourceSplit, 1),
 	}
+	if n := verifhook.Tune("sourcerunner.outputStreamSize", 0); n > 0 {
+		sr.outputStream = make(chan *workerpb.Event, n)
+	}
 
 	if sr.sourceReaderFactory == nil {
 		sr.sourceReaderFactory = func(source *jobconfigpb.Source) connectors.SourceReader {
